@@ -460,22 +460,8 @@ func init() {
 			if r.IsConst() {
 				return e.tt.IntConst(int64(unicode.ToLower(rune(r.Int()))), 32)
 			}
-			// ASCII exact; above ASCII only when provably not an upper-case letter
-			isUp := e.tt.And(e.tt.SLe(e.tt.IntConst('A', 32), r), e.tt.SLe(r, e.tt.IntConst('Z', 32)))
-			if e.decide(isUp) {
-				return e.tt.Add(r, e.tt.IntConst('a'-'A', 32))
-			}
-			if e.decide(e.tt.ULt(r, e.tt.IntConst(0x80, 32))) {
-				return r
-			}
-			if e.decide(e.uniPred("IsUpper", r)) {
-				e.unsupported("unicode.ToLower of a symbolic non-ASCII upper-case rune")
-			}
-			// not upper: could still be title case etc.; Lt runes are also mapped by ToLower
-			if e.decide(e.uniPred("IsTitle", r)) {
-				e.unsupported("unicode.ToLower of a symbolic title-case rune")
-			}
-			return r
+			// exact: the real unicode.CaseRanges table compiled into an SMT function (see installPreamble)
+			return e.tt.App("unicode.ToLower", BVSort(32), r)
 		},
 		// ---- fmt / errors (contract stubs: message text is not modelled) ----
 		"fmt.Errorf": func(e *Engine, caller *frame, fn *ssa.Function, args []Value) Value {
@@ -833,7 +819,32 @@ var uniNative = map[string]func(rune) bool{
 	"IsTitle":  unicode.IsTitle,
 }
 
+// toLowerExpr: unicode.ToLower as a nested ite over unicode.CaseRanges (exactly the algorithm of unicode.to).
+func toLowerExpr() string {
+	expr := "r"
+	for i := len(unicode.CaseRanges) - 1; i >= 0; i-- {
+		cr := unicode.CaseRanges[i]
+		delta := cr.Delta[unicode.LowerCase]
+		if delta == 0 {
+			continue
+		}
+		lo, hi := fmt.Sprintf("#x%08x", cr.Lo), fmt.Sprintf("#x%08x", cr.Hi)
+		var mapped string
+		if delta > unicode.MaxRune {
+			// Upper-Lower sequence: lo + (((r-lo) &^ 1) | 1)
+			mapped = fmt.Sprintf("(bvadd %s (bvor (bvand (bvsub r %s) #xfffffffe) #x00000001))", lo, lo)
+		} else {
+			mapped = fmt.Sprintf("(bvadd r #x%08x)", uint32(int32(delta)))
+		}
+		expr = fmt.Sprintf("(ite (and (bvule %s r) (bvule r %s)) %s %s)", lo, hi, mapped, expr)
+	}
+	return expr
+}
+
 func (e *Engine) installPreamble() {
+	e.solver.Preamble(fmt.Sprintf("(define-fun |unicode.ToLower| ((r (_ BitVec 32))) (_ BitVec 32) %s)", toLowerExpr()))
+	e.solver.declUFs["unicode.ToLower"] = true
+	e.tt.ufs["unicode.ToLower"] = &ufDecl{name: "unicode.ToLower", args: []Sort{BVSort(32)}, ret: BVSort(32)}
 	for _, name := range []string{"IsSpace", "IsDigit", "IsLetter", "IsUpper", "IsTitle"} {
 		e.solver.Preamble(fmt.Sprintf("(define-fun |unicode.%s| ((r (_ BitVec 32))) Bool %s)", name, rangeTableExpr(uniPreds[name]...)))
 		e.solver.declUFs["unicode."+name] = true
